@@ -663,7 +663,7 @@ static void selftest(void)
 int main(int argc, char **argv)
 {
         mc_init(argc, argv, "C06");
-        mc_set_budget(200, 1500);
+        mc_set_budget(300, 1500);
         mc_meta("level", "model_checking");
         mc_meta("technique", "bounded-exhaustive frames x configurations through the real multiplexer, independent standards parser + library demultiplexer round trip; E2 over frame sequences with canonical multiplexer/demultiplexer state; E1 over coroutine buffer sizes");
         mc_meta("rule", "a case is one (frame or frame sequence, configuration, interface); distinct counts (frame, data_identifier, PES/TS) resp. merged E2 states; every case reaches generate_pes_packet (accepted or rejected is an outcome)");
